@@ -603,7 +603,11 @@ def run_case(case):
     try:
         with warnings.catch_warnings():
             warnings.simplefilter("ignore")
-            if op == "dict_to_stix2" or (op == "deep" and case.get("via") == "dict_to_stix2"):
+            if op == "deep" and case.get("via") == "construct":
+                if CLASSES is None:
+                    CLASSES = all_classes()
+                r = CLASSES[case["cls"]](allow_custom=allow_custom, interoperability=interop, **data)
+            elif op == "dict_to_stix2" or (op == "deep" and case.get("via") == "dict_to_stix2"):
                 r = stix2.parsing.dict_to_stix2(data, allow_custom=allow_custom, interoperability=interop, version=version)
             elif op == "deep" and case.get("via") == "file":
                 r = stix2.parse(io.StringIO(data), allow_custom=allow_custom, version=version)
